@@ -22,6 +22,18 @@ CHECKS = {
         design="DESIGN.md section 3 C12"),
 }
 
+CHECKS["C13"] = dict(
+    technique="whole-package effect analysis: who-may-write tracked fields, may-alias analysis of run lists and attribute dicts, memo-accessor shape",
+    text="Effect analysis over every function of the package: stores to FmtStr/Chunk fields only in __init__ or in the "
+         "slot's own memo accessor; no in-place mutation of any list that may alias a .chunks run list or of any dict that "
+         "may alias a run's attributes; each memo accessor stores the complete value once, computed from self.chunks only, "
+         "and returns straight after; FrozenAttributes rejects every dict mutator; FmtStr.__setitem__ raises. These are "
+         "exactly the ways a pre-existing value or a memoised view can change, so for this property the structural "
+         "clauses cover the statement; what is trusted is Python's copying semantics.",
+    note="trusted: *args/list()/slicing/+ build new containers; receivers other than self are matched by attribute name "
+         "(over-approximation); that each accessor computes the RIGHT value is not part of C13",
+    design="DESIGN.md section 3 C13", partial=False)
+
 NOT_APPLICABLE = [
     ("C06", "slicing/normalisation is integer arithmetic over run layouts; no structural clause is a necessary condition visible in the code shape"),
     ("C09", "five-way overlap arithmetic across runs; a sound static decision needs inductive integer invariants (solver family)"),
